@@ -173,13 +173,14 @@ fn c06_receiver_dispatch_source() {
     }
 }
 
-// @check props=C06 tier=thorough
+// @parked (undecided within the caps: see ptab "outside"; not indexed, not compiled as a proof) props=C06 tier=thorough
 // @desc (NOT decided in the quick configuration: the solver ran out of memory in 2 of 3 runs) dispatcher on a well-formed message [INFO_TS, INFO_SRC] with symbolic timestamp, version, vendor and prefixes: parsed by the real parser and iterated by the real MessageReceiver until exhaustion: no panic, nothing is yielded, the receiver holds the INFO_SRC prefix and the INFO_TS timestamp
 // @bounds one 56-byte datagram, all value fields symbolic over their full domain; submessage ids / flags / lengths concrete; unwind 14
 // @enc rtps_messages::overall_structure::RtpsMessageRead::try_from
 // @enc rtps::message_receiver::MessageReceiver::next
-#[kani::proof]
-#[kani::unwind(14)]
+// #[kani::proof]
+// #[kani::unwind(14)]
+#[allow(dead_code)]
 fn c06_receiver_dispatch_interpreter() {
     let prefix: GuidPrefix = kani::any();
     let (sec, frac): (u32, u32) = (kani::any(), kani::any());
@@ -218,13 +219,14 @@ fn c06_receiver_dispatch_interpreter() {
     }
 }
 
-// @check props=C06 tier=thorough
+// @parked (undecided within the caps: see ptab "outside"; not indexed, not compiled as a proof) props=C06 tier=thorough
 // @desc dispatcher on a well-formed message [INFO_TS, HEARTBEAT_FRAG]: exactly the HEARTBEAT_FRAG is yielded, with the INFO_TS timestamp and the header's prefix as source (60-byte datagram: ran out of memory in the quick configuration)
 // @bounds one 60-byte datagram; unwind 14
 // @enc rtps_messages::overall_structure::RtpsMessageRead::try_from
 // @enc rtps::message_receiver::MessageReceiver::next
-#[kani::proof]
-#[kani::unwind(14)]
+// #[kani::proof]
+// #[kani::unwind(14)]
+#[allow(dead_code)]
 fn c06_receiver_dispatch_timestamp_entity() {
     let prefix: GuidPrefix = kani::any();
     let (sec, frac): (u32, u32) = (kani::any(), kani::any());
@@ -273,16 +275,17 @@ fn c06_receiver_dispatch_timestamp_entity() {
 // 2. per-handler steps on a real participant
 // ------------------------------------------------------------------------------------------
 
-// @check props=C06 tier=thorough timeout=1800
+// @parked (undecided within the caps: see ptab "outside"; not indexed, not compiled as a proof) props=C06 tier=thorough timeout=1800
 // @desc (NOT decided: > 900 s - MessageReceiver yields a reference into a heap Vec, so CBMC explores every handler arm of handle_data, including the DATA / ACKNACK paths, on a symbolic submessage) the datagram [INFO_REPLY, HEARTBEAT_FRAG] handed to DcpsDomainParticipant::handle_data of a freshly constructed participant: no panic (formerly todo!()), the worker returns, nothing is sent
 // @bounds 56-byte datagram, symbolic prefix / ids / values; real participant; unwind 4 (+ per-loop bounds from the ptab entry: the handlers' loops over the 5 built-in readers 7, status-kind tables 14)
 // @assume critical_section::acquire/release stubbed (support_cs.rs)
 // @enc dcps::dcps_domain_participant::communication_methods::DcpsDomainParticipant::handle_data
 // @enc rtps::message_receiver::MessageReceiver::next
-#[kani::proof]
-#[kani::unwind(4)]
-#[kani::stub(critical_section::acquire, super::support_cs::cs_acquire)]
-#[kani::stub(critical_section::release, super::support_cs::cs_release)]
+// #[kani::proof]
+// #[kani::unwind(4)]
+// #[kani::stub(critical_section::acquire, super::support_cs::cs_acquire)]
+// #[kani::stub(critical_section::release, super::support_cs::cs_release)]
+#[allow(dead_code)]
 fn c06_info_reply_handle_data() {
     let prefix: GuidPrefix = kani::any();
     let b = info_reply_datagram(&prefix, kani::any(), kani::any(), kani::any());
@@ -307,17 +310,18 @@ fn gap_datagram(gap_start: i64, base: i64) -> [u8; 52] {
     b
 }
 
-// @check props=C06 tier=thorough timeout=1800 unwind_violation=1
+// @parked (undecided within the caps: see ptab "outside"; not indexed, not compiled as a proof) props=C06 tier=thorough timeout=1800 unwind_violation=1
 // @desc (NOT decided: > 900 s, same reason as c06_info_reply_handle_data; the range operation itself is decided by c06_gap_range_proxy) GAP from a matched (discovered) writer with ARBITRARY i64 gapStart and gapList.base - including ranges of 2^63 sequence numbers (formerly one loop iteration per sequence number, repaired in /repo with RtpsWriterProxy::irrelevant_change_range): handle_data returns without panic within the unwinding bound; the proxy skips the range exactly when it starts at or before the next expected sequence number and ends after it
 // @bounds real participant whose built-in publications reader has one matched writer proxy in its initial state; one 52-byte GAP, gapStart / base symbolic over the full i64 range, empty bitmap; unwind 4, handler loops over the 5 built-in readers 7 (an unwinding failure = loop count controlled by the datagram)
 // @assume critical_section::acquire/release stubbed (support_cs.rs)
 // @enc dcps::dcps_domain_participant::communication_methods::DcpsDomainParticipant::handle_data
 // @enc dcps::dcps_domain_participant::communication_methods::DcpsDomainParticipant::handle_gap_submessage
 // @enc rtps::writer_proxy::RtpsWriterProxy::irrelevant_change_range
-#[kani::proof]
-#[kani::unwind(4)]
-#[kani::stub(critical_section::acquire, super::support_cs::cs_acquire)]
-#[kani::stub(critical_section::release, super::support_cs::cs_release)]
+// #[kani::proof]
+// #[kani::unwind(4)]
+// #[kani::stub(critical_section::acquire, super::support_cs::cs_acquire)]
+// #[kani::stub(critical_section::release, super::support_cs::cs_release)]
+#[allow(dead_code)]
 fn c06_gap_range_handle_data() {
     let gap_start: i64 = kani::any();
     let base: i64 = kani::any();
